@@ -175,11 +175,12 @@ def vtree():
 
     def tag(children):
         return st.builds(
-            lambda nm, ws, attrs, kids: {"k": "tag", "name": nm, "ws": ws, "attrs": attrs, "kids": kids},
+            lambda nm, ws, attrs, kids, vc: {"k": "tag", "name": nm, "ws": ws, "attrs": attrs, "kids": kids, "via_consolidate": vc},
             st.sampled_from(["div", "p", "span", "b", "ul", "x-y"]),
             st.booleans(),
             attr,
             st.lists(children, max_size=4),
+            st.sampled_from([False, False, True]),
         )
 
     raw = st.builds(
@@ -232,6 +233,11 @@ class _B:
                 attrs.append({name: h.HTML(self.val(m, "attr" if len(vals) == 1 else "attr-merge"))})
         kids = [self.node(c) for c in r["kids"]]
         late = r.get("late")
+        if r.get("via_consolidate") and not late:
+            # the public helper: attributes (incl. HTML() values) consolidated, then the tag rebuilt from the result
+            self.kinds.add("via-consolidate")
+            cattrs, ckids = h.consolidate_attrs(*attrs, *kids)
+            return h.Tag(r["name"], cattrs, *ckids, _add_ws=r["ws"])
         if late:
             # children added after construction (append / extend / insert), not through the constructor
             self.kinds.add("late-" + late)
@@ -257,6 +263,22 @@ def _renders(objs, case):
         ("TagList.render", tl.render()["html"]),
         ("HTMLDocument.render", h.HTMLDocument(*objs).render()["html"]),
     ]
+    # save_html() is a rendering path too: what lands in the file must be the document's markup
+    import os
+    import shutil
+    import tempfile
+
+    import locale
+
+    if locale.getpreferredencoding(False).lower().replace("-", "") == "utf8":  # save_html() writes in the locale's encoding
+        d = tempfile.mkdtemp(prefix="hv-c04-")
+        try:
+            f = os.path.join(d, "page.html")
+            h.HTMLDocument(*objs).save_html(f)
+            with open(f, encoding="utf-8", newline="") as fh:
+                outs.append(("save_html file", fh.read()))
+        finally:
+            shutil.rmtree(d, ignore_errors=True)
     if isinstance(objs[0], h.Tag):
         outs.append(("Tag.get_html_string", objs[0].get_html_string(case["indent"], case["eol"])))
         outs.append(("str(tag)", str(objs[0])))
@@ -278,7 +300,7 @@ def body_verbatim(case, note):
             h.Tag("p", m, "x", title=m).get_html_string()
     for (label, r0), (_, r1) in zip(_renders(o0, case), _renders(o1, case)):
         found = [int(m.group(1)) for m in PH_RE.finditer(r0)]
-        if label.startswith("TagList") or label.startswith("HTMLDocument"):
+        if label.startswith("TagList") or label.startswith("HTMLDocument") or label.startswith("save_html"):
             check(sorted(found) == list(range(len(slots))), f"{label}: a trusted slot was dropped or duplicated", found, r0)
         exp = PH_RE.sub(lambda m: slots[int(m.group(1))], r0)
         check(r1 == exp, f"{label}: trusted markup is not emitted byte-for-byte", exp, r1)
@@ -316,7 +338,7 @@ CLAUSES = [
         quick=600,
         thorough=15000,
         shards_quick=4,
-        required=("slot:html", "slot:repr", "slot:rawtext", "slot:rawhtml", "slot:attr", "slot:attr-merge", "prior-plain-render", "long-markup", "slot:late-append", "slot:late-insert"),
+        required=("slot:html", "slot:repr", "slot:rawtext", "slot:rawhtml", "slot:attr", "slot:attr-merge", "prior-plain-render", "long-markup", "slot:late-append", "slot:late-insert", "slot:via-consolidate"),
         rule="see RULE",
     ),
 ]
